@@ -269,10 +269,20 @@ class ChildrenList(list):
         :param items: list of items to be appened to the list.
         :type items: list of :py:class:`psyclone.psyir.nodes.Node`
 
+        :raises GenerationError: if the same item is given more than once.
+
         '''
+        already_given = set()
         for index, item in enumerate(items):
             self._validate_item(len(self) + index, item)
             self._check_is_orphan(item)
+            # A node can only appear once in the tree
+            if id(item) in already_given:
+                raise GenerationError(
+                    f"Item '{item.coloured_name(False)}' can't be added more "
+                    f"than once as child of "
+                    f"'{self._node_reference.coloured_name(False)}'.")
+            already_given.add(id(item))
         super().extend(items)
         for item in items:
             self._set_parent_link(item)
